@@ -1450,4 +1450,76 @@ Section Real.
     intros b Hb. rewrite O1. rewrite O2 in Hb. apply St; exact Hb.
   Qed.
 
+  (* ---- a bias with factor 1 that the user disables stays inactive ------------------------------------ *)
+  Fixpoint disabled_at (off : nat -> bool) (evs : list (@event R)) : list (nat -> bool) :=
+    match evs with
+    | [] => []
+    | EStep _ :: r => off :: disabled_at off r
+    | ERepeat _ :: r => off :: disabled_at off r
+    | ESetActive id on :: r => disabled_at (fun j => if Nat.eqb j id then negb on else off j) r
+    end.
+
+  Definition DInv (off : nat -> bool) (b : bias) : Prop :=
+    (1 <? b_tsf b)%Z = false -> b_rc b = 0%Z /\ (off (b_id b) = true -> b_active b = false).
+
+  Lemma bias_step_DInv off it nv xs (b : bias) : DInv off b -> DInv off (bias_step it nv xs b).
+  Proof.
+    intros H. unfold bias_step.
+    destruct (update_pure_flags it nv xs (wake_self fixed it b)) as ((I1 & T1 & _) & U2 & U3 & U4).
+    unfold DInv. rewrite I1, T1, U2, U4.
+    unfold wake_self. destruct (1 <? b_tsf b)%Z eqn:Et.
+    - pose proof (wake_self_static it b) as (_ & T2 & _). unfold wake_self in T2. rewrite Et in T2.
+      rewrite T2, Et. discriminate.
+    - exact H.
+  Qed.
+
+  Lemma set_active_self_DInv off id on (b : bias) :
+    DInv off b -> DInv (fun j => if Nat.eqb j id then negb on else off j) (set_active_self id on b).
+  Proof.
+    destruct b as [id0 tsf vars byp app upd st act rc aw e fs].
+    unfold DInv, set_active_self, enable_active_self, disable_active_self. cbn.
+    intros H. destruct (Nat.eqb id0 id) eqn:E.
+    - destruct on, act; cbn; try (destruct (1 <? rc)%Z eqn:Er; cbn);
+        intros Ht; destruct (H Ht) as [Hrc Hoff]; subst rc; try (cbn in Er; discriminate);
+        cbn; rewrite ?E; cbn;
+        (split; [reflexivity|]); try (intros; discriminate); try (intros _; reflexivity).
+    - cbn. rewrite E. exact H.
+  Qed.
+
+  Lemma btrace_disabled nv evs : forall off it first (bs : list bias),
+    (forall b, In b bs -> DInv off b) ->
+    Forall2 (fun (t : sout) (off' : nat -> bool) =>
+               forall b, In b (snd (fst t)) -> (1 <? b_tsf b)%Z = false -> off' (b_id b) = true -> b_active b = false)
+            (btrace nv (it, first, bs) evs) (disabled_at off evs).
+  Proof.
+    induction evs as [|ev r IH]; intros off it first bs H; [constructor|].
+    cbn [btrace disabled_at]. destruct ev as [xs|xs|id on]; cbn [bstep app].
+    - assert (H' : forall b, In b (map (bias_step (if first then it else (it + 1)%Z) nv xs) bs) -> DInv off b).
+      { intros b' Hb'. apply in_map_iff in Hb'. destruct Hb' as (b & <- & Hb). apply bias_step_DInv, H, Hb. }
+      constructor; [|apply IH; exact H'].
+      cbn [fst snd]. intros b Hb Ht Ho. apply (H' b Hb Ht), Ho.
+    - assert (H' : forall b, In b (map (bias_step it nv xs) bs) -> DInv off b).
+      { intros b' Hb'. apply in_map_iff in Hb'. destruct Hb' as (b & <- & Hb). apply bias_step_DInv, H, Hb. }
+      constructor; [|apply IH; exact H'].
+      cbn [fst snd]. intros b Hb Ht Ho. apply (H' b Hb Ht), Ho.
+    - apply IH. intros b' Hb'. apply in_map_iff in Hb'. destruct Hb' as (b & <- & Hb).
+      apply set_active_self_DInv, H, Hb.
+  Qed.
+
+  Theorem disabled_stays_off it0 tsfs (cfgs : list (@bias_cfg R BS)) evs :
+    Forall2 (fun (o : @out R BS) (off : nat -> bool) =>
+               forall b, In b (o_biases o) -> (1 <? b_tsf b)%Z = false -> off (b_id b) = true -> b_active b = false)
+            (run_cfg Rops fixed efix it0 tsfs cfgs evs) (disabled_at (fun _ => false) evs).
+  Proof.
+    pose proof (run_cfg_closed it0 tsfs cfgs evs) as HC.
+    assert (HD := btrace_disabled (length tsfs) evs (fun _ => false) it0 true (map (init_bias Rops) cfgs)).
+    specialize (HD ltac:(intros b Hb; apply in_map_iff in Hb; destruct Hb as (c & <- & _);
+                         unfold DInv, init_bias; cbn; intros _; split; [reflexivity | discriminate])).
+    revert HD. generalize (disabled_at (fun _ : nat => false) evs).
+    induction HC as [|o t lo lt Ho Hrest IH]; intros l HD; inversion HD as [|? off ? l' Dt Drest]; subst; constructor.
+    - destruct t as [[it bs] xs]. destruct Ho as (O1 & O2 & _). cbn [fst snd] in Dt.
+      intros b Hb. rewrite O2 in Hb. apply Dt; exact Hb.
+    - apply IH; exact Drest.
+  Qed.
+
 End Real.
